@@ -1,3 +1,4 @@
+import Tahoe.Generated.Immutable
 /-!
 C44 — helper-assisted immutable upload (Mathlib-free, executable model).
 
@@ -152,6 +153,36 @@ def helperUpload (encode : List UInt8 → Params → Encoded) (chunk : Nat) (key
     match clientCaps key si p ct.length ⟨e.uebHash, p.k, p.n, p.seg, used.length, p.n⟩ with
     | none => none
     | some (r, v) => some (e.shares, r, v)
+
+/-! ## the client's choice of uploader (`Uploader.upload`) -/
+
+/-- what an upload returns: a LIT cap holding the data itself, or CHK caps -/
+inductive UploadCap
+  | lit (data : List UInt8)
+  | chk (r : ReadCap) (v : VerifyCap)
+  deriving DecidableEq, Repr
+
+/-- which uploader `Uploader.upload` picks: the literal test comes **first** (`size <= URI_LIT_SIZE_THRESHOLD`,
+the largest size that fits a LIT cap), only then the helper is considered -/
+inductive Picked | literal | assisted | direct
+  deriving DecidableEq, Repr
+
+def pickUploader (hasHelper : Bool) (size : Nat) : Picked :=
+  if size ≤ Tahoe.Generated.Immutable.URI_LIT_SIZE_THRESHOLD then .literal
+  else if hasHelper then .assisted else .direct
+
+/-- the whole client-side upload of plaintext `pt` (ciphertext `ct`): shares pushed to the grid and the cap returned -/
+def clientUpload (encode : List UInt8 → Params → Encoded) (hasHelper : Bool) (chunk : Nat) (key si : Nat)
+    (pt ct : List UInt8) (p : Params) (faults : List Fault) : Option (List (List UInt8) × UploadCap) :=
+  match pickUploader hasHelper pt.length with
+  | .literal => some ([], .lit pt)          -- LiteralUploader: neither helper nor servers are contacted
+  | .assisted =>
+    match helperUpload encode chunk key si ct p faults with
+    | none => none
+    | some (sh, r, v) => some (sh, .chk r v)
+  | .direct =>
+    let d := directUpload encode key si ct p
+    some (d.1, .chk d.2.1 d.2.2)
 
 /-! ## already-present decision -/
 
